@@ -8,7 +8,7 @@ LEVEL = 'proof'
 RULE = ('exhaustive: every shape of rank 1..R with extents 1..E, every flat offset (strides, indices, ndindex) and every '
         'multi-index (offset, row- and column-major ndarray read/write); container kinds vec/std::array/static_vector; '
         'random shapes with prod near 2^31 / 2^40 at index level; machine width: int32 / uint32 / int64 / uint64 element types x '
-        'vec/std::array/static_vector (and mixed pairs for compute_offset) on shapes whose element count and leading stride straddle '
+        'vec/std::array/static_vector/run-time tuple (and mixed pairs for compute_offset) on shapes whose element count and leading stride straddle '
         '2^31, 2^32, 2^40, 2^63, 2^64, offsets at the marks +-1, last element, leading axis at its maximum, random (exact Python integers). '
         'non-trivial = shape has >= 2 axes with extent > 1')
 EXHAUSTIVE = {'quick': True, 'thorough': True}
@@ -54,7 +54,13 @@ def indices_py(off, s):
 # machine width (harness/h_c01w.cpp, NmVerif.Index.MachineAddr): element types of the index containers
 # ----------------------------------------------------------------------------------------------------------------
 W_LIM = {'i32': 2 ** 31, 'u32': 2 ** 32, 'i64': 2 ** 63, 'u64': 2 ** 64}       # number of non-negative values
-W_KINDS = ['vec', 'arr', 'sv']
+W_KINDS = ['vec', 'arr', 'sv', 'tup']      # dynamic list, fixed std::array (rank <= 6), bounded static_vector, run-time tuple (rank <= 3)
+
+
+def w_kind(n, r):
+    k = W_KINDS[n % 4]
+    return 'sv' if (k == 'tup' and r > 3) else 'vec' if (k == 'arr' and r > 6) else k
+
 W_PAIRS = [('i32', 'i32'), ('u32', 'u32'), ('i64', 'i64'), ('u64', 'u64'), ('i32', 'u64'), ('u64', 'i32'), ('i32', 'u32')]
 SZ = 2 ** 64
 
@@ -157,7 +163,7 @@ def w_offdomain_cases(tier, rng):
             table.append((ty, [rng.randint(1, 5)] + tail, [rng.randrange(2 ** 63)]))
     for n, (ty, s, offs) in enumerate(table):
         st = strides_py(s)
-        k = W_KINDS[n % 3]
+        k = w_kind(n, len(s))
         yield Case('w_strides ty=%s kind=%s shape=%s' % (ty, k, fmt(s)), 'h_c01w', dom=False, oracle='ok ' + fmt(st), tags=['w_strides', 'off-domain', 'ty=' + ty])
         wst = [w_wrap(ty, x) for x in st]
         for off in offs:
@@ -165,7 +171,7 @@ def w_offdomain_cases(tier, rng):
                 continue        # division by zero kills the harness; one instance is enough in the quick tier
             yield Case('w_indices ty=%s kind=%s off=%d shape=%s' % (ty, k, off, fmt(s)), 'h_c01w', dom=False, oracle='ok ' + fmt(indices_py(off, s)), tags=['w_indices', 'off-domain', 'ty=' + ty])
     for n, (ty, s) in enumerate([('i32', [2, 65536, 65536]), ('i32', [3, 46341, 46341]), ('i64', [2, 2 ** 32, 2 ** 31]), ('i32', [1, 2 ** 16, 2 ** 15])]):
-        yield Case('w_strides ty=%s kind=%s shape=%s' % (ty, W_KINDS[n % 3], fmt(s)), 'h_c01w', dom=False, model=False, oracle='ok ' + fmt(strides_py(s)),
+        yield Case('w_strides ty=%s kind=%s shape=%s' % (ty, w_kind(n, len(s)), fmt(s)), 'h_c01w', dom=False, model=False, oracle='ok ' + fmt(strides_py(s)),
                    tags=['w_strides', 'off-domain', 'signed-overflow', 'ty=' + ty])
 
 
@@ -182,10 +188,10 @@ def w_cases(tier, rng):
             idx = indices_py(off, s)
             for rep in range(2):
                 ctr += 1
-                ty = list(W_LIM)[ctr % 4]; k = W_KINDS[(ctr // 4) % 3]
-                same = ' offty=same' if (ctr // 12) % 2 else ''
+                ty = list(W_LIM)[ctr % 4]; k = W_KINDS[(ctr // 4) % 4]
+                same = ' offty=same' if (ctr // 16) % 2 else ''
                 yield Case('w_indices ty=%s kind=%s off=%d shape=%s%s' % (ty, k, off, fmt(s), same), 'h_c01w', oracle='ok ' + fmt(idx), nontrivial=nt, tags=['w_indices', 'small', 'ty=' + ty, 'kind=' + k])
-                ti, ts = W_PAIRS[ctr % 7]; ki = W_KINDS[(ctr // 7) % 3]; ks = W_KINDS[(ctr // 21) % 3]
+                ti, ts = W_PAIRS[ctr % 7]; ki = W_KINDS[(ctr // 7) % 4]; ks = W_KINDS[(ctr // 28) % 4]
                 yield Case('w_offset tyi=%s tys=%s ki=%s ks=%s idx=%s strides=%s' % (ti, ts, ki, ks, fmt(idx), fmt(st)), 'h_c01w', oracle='ok %d' % off, nontrivial=nt,
                            tags=['w_offset', 'small', 'ty=%s/%s' % (ti, ts), 'kind=%s/%s' % (ki, ks)])
     # (b) large extents: only index math.  Everything here satisfies the hypotheses of the machine-width theorems
@@ -198,7 +204,7 @@ def w_cases(tier, rng):
             size_tag = 'n>=2^64' if n >= 2 ** 64 else 'n>=2^63' if n >= 2 ** 63 else 'n>=2^32' if n >= 2 ** 32 else 'n>=2^31' if n >= 2 ** 31 else 'n<2^31'
             tags = ['large', 'ty=' + ty, size_tag]
             for k in W_KINDS:
-                if k == 'arr' and r > 6:
+                if (k == 'arr' and r > 6) or (k == 'tup' and r > 3):
                     continue
                 yield Case('w_strides ty=%s kind=%s shape=%s' % (ty, k, fmt(s)), 'h_c01w', oracle='ok ' + fmt(st), nontrivial=nt, tags=['w_strides', 'kind=' + k] + tags)
             # multi-indices: last element, leading axis at its maximum, random ones, neighbours of the marks
@@ -214,14 +220,14 @@ def w_cases(tier, rng):
                 ctr += 1
                 big = max(a * b for a, b in zip(idx, st))
                 ttag = 'term>=2^32' if big >= 2 ** 32 else 'term>=2^31' if big >= 2 ** 31 else 'term<2^31'
-                k = W_KINDS[ctr % 3]
-                same = ' offty=same' if (off < M and ctr % 4 == 0) else ''
+                k = w_kind(ctr, r)
+                same = ' offty=same' if (off < M and (ctr // 4) % 3 == 0) else ''
                 yield Case('w_indices ty=%s kind=%s off=%d shape=%s%s' % (ty, k, off, fmt(s), same), 'h_c01w', oracle='ok ' + fmt(idx), nontrivial=nt, tags=['w_indices', 'kind=' + k] + tags)
                 if ctr % 5 == 0:
                     yield Case('w_indices3 ty=%s kind=%s off=%d shape=%s strides=%s' % (ty, k, off, fmt(s), fmt(st)), 'h_c01w', oracle='ok ' + fmt(idx), nontrivial=nt, tags=['w_indices3', 'kind=' + k] + tags)
                 # offset: same element type for both containers in rotating kind pairs, plus the mixed pairs that can hold the operands
-                ki = W_KINDS[(ctr // 3) % 3]; ks = W_KINDS[(ctr // 9) % 3]
-                pairs = [(ty, ty)] + [p for p in W_PAIRS if p[0] != p[1] and (ctr % 3 == 0) and all(x < W_LIM[p[0]] for x in idx) and all(x < W_LIM[p[1]] for x in st)]
+                ki = w_kind(ctr // 4, r); ks = w_kind(ctr // 16, r)
+                pairs = [(ty, ty)] + [p for p in W_PAIRS if p[0] != p[1] and (ctr % 3 == 0 or r <= 3) and all(x < W_LIM[p[0]] for x in idx) and all(x < W_LIM[p[1]] for x in st)]
                 for ti, ts in pairs:
                     yield Case('w_offset tyi=%s tys=%s ki=%s ks=%s idx=%s strides=%s' % (ti, ts, ki, ks, fmt(idx), fmt(st)), 'h_c01w', oracle='ok %d' % off, nontrivial=nt,
                                tags=['w_offset', 'ty=%s/%s' % (ti, ts), 'kind=%s/%s' % (ki, ks), ttag] + tags)
